@@ -155,6 +155,32 @@ pub fn check_procs_on<G: GraphLike + PartialEq>(
         same_truth(before, &after, REL_TOL)
             .map_err(|e| format!("{what}: linear map changed: {e}"))?;
     }
+    // pipelines: 3-5 procedures (chosen by the mask, repetitions allowed) run one after the other
+    // on the same object, the map compared after every stage - states that only arise after an
+    // earlier procedure, and the second of two consecutive calls of the same one
+    {
+        let mut g = g0.clone();
+        let len = 3 + (mask as usize >> 29) % 3;
+        let mut names: Vec<&str> = vec![];
+        for k in 0..len {
+            let p = ALL_PROCS[((mask >> (4 * k)) as usize ^ (k * 5)) % ALL_PROCS.len()];
+            let p = if k == 1 && mask & (1 << 28) != 0 { ALL_PROCS[(mask as usize) % ALL_PROCS.len()] } else { p };
+            names.push(p.name());
+            let what = format!("{backend}: pipeline {}", names.join(" ; "));
+            let live: Vec<V> = vs.iter().copied().filter(|&v| g.contains_vertex(v)).collect();
+            guarded(&what, || p.run(&mut g, &live))?;
+            let after = match graph_truth(&g) {
+                GraphTruth::Ok(t) => t,
+                GraphTruth::TooBig => {
+                    obs.skip("oracle-too-big");
+                    break;
+                }
+                GraphTruth::Malformed(m) => return Err(format!("{what}: result is not a well-formed diagram: {m}")),
+            };
+            same_truth(before, &after, REL_TOL).map_err(|e| format!("{what}: linear map changed at the last stage: {e}"))?;
+        }
+        obs.class("pipeline");
+    }
     Ok(())
 }
 
@@ -395,7 +421,7 @@ pub fn def(ctx: &Ctx) -> PropertyDef {
     ];
     PropertyDef {
         id: "C01",
-        rule: "random well-formed diagrams (general Z/X with N/H edges; graph-like; hosts with planted gadget families / pivot pairs / proper-Clifford vertices / duplicates / cat stars, incl. 'spoiled' gadgets with a boundary, plain edge or X neighbour on a hub) and diagrams translated from random circuits (optionally with basis states plugged), in both backends with id holes; each of the 14 procedures (every pub fn of simplify.rs; fuse_gadgets both directly and after clifford_simp; local_gslc/local_ap with a generated vertex list) is run on a clone and the harness evaluator must give the same tensor before and after (exact for pi/4 phases, 1e-9 relative otherwise); no panic; result well-formed. Non-trivial = the procedure reported a change; distinct by (case, procedure).",
+        rule: "random well-formed diagrams (general Z/X with N/H edges; graph-like; hosts with planted gadget families / pivot pairs / proper-Clifford vertices / duplicates / cat stars, incl. 'spoiled' gadgets with a boundary, plain edge or X neighbour on a hub) and diagrams translated from random circuits (optionally with basis states plugged), in both backends with id holes; each of the 14 procedures (every pub fn of simplify.rs; fuse_gadgets both directly and after clifford_simp; local_gslc/local_ap with a generated vertex list) is run on a clone and the harness evaluator must give the same tensor before and after (exact for pi/4 phases, 1e-9 relative otherwise); no panic; result well-formed; in addition a pipeline of 3-5 procedures chosen by the generated mask (repetitions allowed) runs on one object with the tensor compared after every stage. Non-trivial = the procedure reported a change; distinct by (case, procedure).",
         assumptions: vec![
             "harness evaluator (see selftest)",
             "termination is only observed through a 120 s per-case watchdog (reported as inconclusive)",
